@@ -28,8 +28,8 @@ func init() {
 	fw.Register(&fw.Prop{
 		ID:    "C09",
 		Level: "exploration",
-		Rule: "programs routing quoted literals, macro arguments, &rest lists and their cdr/rest/slice views into every in-place or capacity-sensitive builtin (templates x mutator table) plus generated programs; each Program is parsed once and loaded (a) k times in one runtime against a twin that re-parses every time, (b) in fresh runtimes, (c) concurrently from G in {2,8,32} goroutines with private, differently configured runtimes under GOMAXPROCS {2,16} in the race-detector build; " +
-			"the Program's structural snapshot (pointer, type, fields, quoting, seal, source, len/cap, children) and SealedASTFingerprint must be unchanged; (d) the sequential phase is repeated in the -tags elpscheck build. distinct_nontrivial counts distinct (template, mutator, view, loads, goroutines, GOMAXPROCS) configurations and generated-program feature signatures",
+		Rule: "programs routing quoted literals, macro arguments, &rest lists, their cdr/rest/slice views and EXPANSIONS handed back as data (macroexpand / macroexpand-1 of quoted call forms of macros that return an argument form, a part of it, their &rest/&optional/&key parameter, a quasiquote around it or a literal of their own body) into every in-place or capacity-sensitive builtin, and macros whose body applies such a builtin to its argument form (value sources x mutator table x program shapes) plus generated programs; each Program is parsed once and loaded (a) k times in one runtime against a twin that re-parses every time, (b) in fresh runtimes, (c) concurrently from G in {2,8,32} goroutines with private, differently configured runtimes under GOMAXPROCS {2,16} in the race-detector build; " +
+			"the Program's structural snapshot (pointer, type, fields, quoting, seal, source, len/cap, children) and SealedASTFingerprint must be unchanged; (d) the sequential phase is repeated in the -tags elpscheck build. distinct_nontrivial counts distinct (shape, mutator, value source, loads, goroutines, GOMAXPROCS) configurations and generated-program feature signatures",
 		Assumptions: []string{
 			"a race needs both accesses executed: the race detector sees exactly what the workload performs",
 			"writes that store the value already present are invisible to the snapshot (visible to the race detector only)",
@@ -174,17 +174,110 @@ var c09Mutators = []struct{ name, form string }{
 	{"thread-first-steps", "(thread-first V (concat 'list '(7 7)) (list 0 1) (list 0 1 2 3) (list 0 1 2 3 4 5 6) (car))"},
 }
 
+// c09Src is a VALUE SOURCE of the template dimension "where does the value come from":
+// an expression whose value may alias program text.  The plain literal forms have no
+// name (their finding key is shape|mutator, as ever).  The named ones obtain the value
+// as the EXPANSION of a quoted macro call form (macroexpand-1 / macroexpand, directly or
+// behind a pass-through macro): the macro hands back an argument form unchanged, a
+// sub-list or view of it, its &rest / &optional / &key parameter, a quasiquote that
+// unquotes or splices it, or a literal of the macro's own BODY - every one of them a
+// piece of the parsed program, or storage that must be fresh.
+type c09Src struct {
+	name string // "" = plain literal form
+	defs string // macro definitions the expression needs (macro-body-*: the formals of mut-m)
+	expr string // plain literal: the form itself; named source: the macro CALL form
+	wrap string // named source: what is done with the expansion X ("" = X itself)
+}
+
+var c09Sources = []c09Src{
+	{expr: "'(3 1 2)"}, {expr: "'(5 4 3 2 1)"}, {expr: "[9 7 8]"}, {expr: "'(2 1)"}, {expr: "'(4 4 1 9 0 3)"},
+	{expr: "(eval ''(3 1 2))"}, {expr: "(car '((7 3 5) x))"}, {expr: "(cdr (quote (0 8 6 7)))"},
+	// expansions: an argument form handed back as it is / a part or a view of it
+	{name: "mx-pass", defs: "(defmacro pass-m (form) form)", expr: "(pass-m (3 1 2))"},
+	{name: "mx-car", defs: "(defmacro car-m (form) (car form))", expr: "(car-m ((7 3 5) x))"},
+	{name: "mx-cdr", defs: "(defmacro cdr-m (form) (cdr form))", expr: "(cdr-m (0 3 1 2))"},
+	{name: "mx-rest", defs: "(defmacro rest-of-m (form) (rest form))", expr: "(rest-of-m (0 8 6 7))"},
+	{name: "mx-nth", defs: "(defmacro nth-m (form) (nth form 1))", expr: "(nth-m (x (4 4 1 9 0 3)))"},
+	{name: "mx-slice", defs: "(defmacro slice-m (form) (slice 'list form 1 4))", expr: "(slice-m (0 3 1 2 9))"},
+	// expansions: the macro's variadic / optional / keyword parameter
+	{name: "mx-restargs", defs: "(defmacro restargs-m (&rest xs) xs)", expr: "(restargs-m 3 1 2)"},
+	{name: "mx-restargs-cdr", defs: "(defmacro restargs-cdr-m (a &rest xs) (cdr xs))", expr: "(restargs-cdr-m 0 0 5 4 3)"},
+	{name: "mx-optional", defs: "(defmacro opt-m (&optional form) form)", expr: "(opt-m (2 1))"},
+	{name: "mx-key", defs: "(defmacro key-m (&key form) form)", expr: "(key-m :form (5 4 3 2 1))"},
+	// expansions: a quasiquote template around the argument form
+	{name: "mx-quasi-unquote", defs: "(defmacro qu-m (form) (quasiquote (unquote form)))", expr: "(qu-m (3 1 2))"},
+	{name: "mx-quasi-splice", defs: "(defmacro qs-m (form) (quasiquote ((unquote-splicing form))))", expr: "(qs-m (3 1 2))"},
+	{name: "mx-quasi-splice-tail", defs: "(defmacro qst-m (form) (quasiquote (0 (unquote-splicing form))))", expr: "(qst-m (4 4 1 9 0 3))"},
+	{name: "mx-quasi-nested", defs: "(defmacro qn-m (form) (quasiquote (list (unquote form))))", expr: "(qn-m (3 1 2))", wrap: "(nth X 1)"},
+	// expansions: a literal of the macro BODY
+	{name: "mx-body-literal", defs: "(defmacro body-m () '(3 1 2))", expr: "(body-m)"},
+	{name: "mx-body-quoted-literal", defs: "(defmacro body-q-m () ''(5 4 3 2 1))", expr: "(body-q-m)", wrap: "(eval X)"},
+	{name: "mx-body-quasi-literal", defs: "(defmacro body-qq-m () (quasiquote (3 1 2)))", expr: "(body-qq-m)"},
+	{name: "mx-body-vector", defs: "(defmacro body-v-m () [9 7 8])", expr: "(body-v-m)"},
+	// the macro BODY applies the mutator to its argument form at expansion time (shape 4)
+	{name: "macro-body-arg", defs: "(v)", expr: "(mut-m (3 1 2))"},
+	{name: "macro-body-rest", defs: "(&rest v)", expr: "(mut-m 4 4 1 9 0 3)"},
+	{name: "macro-body-key", defs: "(&optional u &key v)", expr: "(mut-m () :v (5 4 3 2 1))"},
+	{name: "macro-body-quoted-arg", defs: "(v)", expr: "(mut-m '(3 1 2))"},
+}
+
+// the ways a named source's call form C is expanded
+var c09Expanders = []string{
+	"(macroexpand-1 'C)",
+	"(macroexpand 'C)",
+	"(macroexpand '(checked-m C))",
+	"(macroexpand-1 (macroexpand-1 '(checked-m C)))",
+}
+
+// c09SourceStride decorrelates consecutive blocks of cases from the order of
+// c09Sources (the checked-build phase runs a prefix of the workload): the smallest
+// stride >= 7 coprime to the number of sources.
+func c09SourceStride(n int) int {
+	gcd := func(a, b int) int {
+		for b != 0 {
+			a, b = b, a%b
+		}
+		return a
+	}
+	s := 7
+	for gcd(s, n) != 1 {
+		s++
+	}
+	return s
+}
+
+// c09TemplateSource enumerates (mutator x source) pairs first - one pass is
+// len(c09Mutators)*len(c09Sources) cases, about what the quick tier runs - and
+// rotates the program shape and the expander through the pairs (within a pass every
+// mutator meets every shape and every expander, and so does every source); later
+// passes shift both, so 16 passes cover the whole product.
 func c09TemplateSource(r *fw.RNG, k int) (src, label string) {
-	mu := c09Mutators[k%len(c09Mutators)]
-	lits := []string{"'(3 1 2)", "'(5 4 3 2 1)", "[9 7 8]", "'(2 1)", "'(4 4 1 9 0 3)", "(eval ''(3 1 2))", "(car '((7 3 5) x))", "(cdr (quote (0 8 6 7)))"}
-	lit := lits[(k/len(c09Mutators))%len(lits)]
-	mform := strings.ReplaceAll(mu.form, "V", "v")
-	shape := (k / (len(c09Mutators) * len(lits))) % 4
+	M, S := len(c09Mutators), len(c09Sources)
+	mi := k % M
+	si := ((k / M) * c09SourceStride(S)) % S
+	pass := k / (M * S)
+	mu, so := c09Mutators[mi], c09Sources[si]
+	shape := (mi + si + pass) % 4
+	lit, tag := so.expr, so.expr
 	pre := `(defmacro sort-args-m (&rest xs) (stable-sort < xs) (quasiquote (quote (unquote xs))))
 (defmacro lit-m (&rest xs) (quasiquote (list (unquote-splicing (stable-sort < xs)))))
 (defmacro checked-m (form) form)
 (set 'literal-zoo (list ''(4 5 (6)) '''z (quote (quote (1 (2)))) '[1 [2 3]] '(a "s" 1.5 (b c)) #^(+ % 1) (function car) '#^(list %1 %2) ''[7 8]))
 `
+	mform := strings.ReplaceAll(mu.form, "V", "v")
+	switch {
+	case strings.HasPrefix(so.name, "macro-body-"):
+		shape, tag = 4, so.name
+		pre += fmt.Sprintf("(defmacro mut-m %s (handler-bind ((condition (lambda (&rest e) 'failed))) %s) (quasiquote (quote (unquote v))))\n", so.defs, mform)
+	case so.name != "":
+		ex := (mi/4 + si + pass/4) % len(c09Expanders)
+		lit = strings.ReplaceAll(c09Expanders[ex], "C", so.expr)
+		if so.wrap != "" {
+			lit = strings.ReplaceAll(so.wrap, "X", lit)
+		}
+		tag = so.name
+		pre += so.defs + "\n"
+	}
 	var body string
 	switch shape {
 	case 0: // function returning a literal, mutated between two evaluations
@@ -207,7 +300,7 @@ func c09TemplateSource(r *fw.RNG, k int) (src, label string) {
 (set 'r4 (format-string "{}" %s))
 (list r1 r2 r3 r4)
 `, mform, lit, lit)
-	default: // views of a literal held in a global
+	case 3: // views of a literal held in a global
 		body = fmt.Sprintf(`(set 'g %s)
 (set 'view (cdr g))
 (set 'b (format-string "{} {}" g view))
@@ -215,8 +308,17 @@ func c09TemplateSource(r *fw.RNG, k int) (src, label string) {
 (let ([v g]) %s)
 (list b (format-string "{}" %s))
 `, lit, mform, mform, lit)
+	default: // shape 4: the mutator runs INSIDE the macro, on the argument form it is handed -
+		// when the call is evaluated, when it is evaluated as data and when it is expanded
+		body = fmt.Sprintf(`(defun call-form () '%s)
+(defun run-call () %s)
+(set 'before (format-string "{} {}" (call-form) (run-call)))
+(set 'expansions (list (macroexpand-1 (call-form)) (macroexpand (call-form)) (macroexpand (list 'checked-m (call-form))) (run-call) (eval (call-form))))
+(set 'after (format-string "{} {}" (call-form) (run-call)))
+(list expansions before after (string= before after))
+`, lit, lit)
 	}
-	return pre + body, fmt.Sprintf("shape%d|%s|%s", shape, mu.name, lit)
+	return pre + body, fmt.Sprintf("shape%d|%s|%s", shape, mu.name, tag)
 }
 
 func c09Source(w *fw.W, idx int) (src, label string, literalStable bool, feats map[string]bool) {
@@ -313,8 +415,12 @@ func c09Run(w *fw.W, idx int) {
 		}
 	}
 	// literal stability as reported by the program itself
-	if strings.HasPrefix(label, "shape0") && !strings.HasSuffix(ref[0].val, " true)") && !strings.Contains(ref[0].val, "error") && !strings.HasPrefix(ref[0].val, "c09") {
-		w.Violation("literal-changed:"+c09Label(label), "a quoted literal evaluated to a different value after values obtained from it were mutated: "+trunc(ref[0].val, 300), src)
+	if (strings.HasPrefix(label, "shape0") || strings.HasPrefix(label, "shape4")) && !strings.HasSuffix(ref[0].val, " true)") && !strings.Contains(ref[0].val, "error") && !strings.HasPrefix(ref[0].val, "c09") {
+		what := "a quoted literal (or the expansion of a quoted macro call) evaluated to a different value after values obtained from it were mutated: "
+		if strings.HasPrefix(label, "shape4") {
+			what = "a quoted macro call form / the value of the macro call changed after the macro's body applied a builtin to its argument form: "
+		}
+		w.Violation("literal-changed:"+c09Label(label), what+trunc(ref[0].val, 300), src)
 		return
 	}
 	if strings.HasPrefix(label, "shape1") && strings.HasSuffix(ref[0].val, " false)") {
@@ -409,7 +515,11 @@ func c09Run(w *fw.W, idx int) {
 
 func c09Label(l string) string {
 	// shapeN|mutator|literal -> shapeN|mutator (the literal is not part of the finding key)
+	// for a named value source (expansion of a macro call, macro body) the source is part of it
 	p := strings.Split(l, "|")
+	if len(p) >= 3 && (strings.HasPrefix(p[2], "mx-") || strings.HasPrefix(p[2], "macro-body-")) {
+		return p[0] + "|" + p[1] + "|" + p[2]
+	}
 	if len(p) >= 2 {
 		return p[0] + "|" + p[1]
 	}
